@@ -19,7 +19,7 @@ import (
 func init() {
 	register(Property{ID: "C08", Level: "other", Run: runC08,
 		Technique: "static analysis: type-graph walk of conf.Conf/conf.Path (go/types), encoder/decoder sibling agreement (method pairs, wire types, constant tables extracted from the switch statements), static call-graph reachability of fixed-precision float formatting from the encoders, struct-tag rules, and a sibling-agreement rule over the callers of (*Conf).Validate for nil-slice normalisation",
-		Text:      "Decides structural necessary conditions of the JSON round trip: every type in the configuration graph with MarshalJSON has UnmarshalJSON and both use the same wire type; decoder-only types read the default encoding of their underlying type; for enum-like types the string tables of encoder and decoder agree (decode(encode(k)) = k for every constant the decoder can produce); no encoder reaches a fixed-precision float formatter; json:\"-\" fields are exactly the tabled derived fields filled by Validate; the optional (patch) struct types are derived from Conf/Path skipping exactly the same fields as the returned Global type; omitempty is used only on pointer fields; configurations that contain slices nested below list elements are normalised (nil → empty) before they can be returned, because the decoder rejects null. Does not decide equality over value domains (time.Duration.String/ParseDuration, net.ParseCIDR, bytefmt.ToBytes), nor the deliberate redaction of credentials in API responses.",
+		Text:      "Decides structural necessary conditions of the JSON round trip: every type in the configuration graph with MarshalJSON has UnmarshalJSON and both use the same wire type; decoder-only types read the default encoding of their underlying type; for enum-like types the string tables of encoder and decoder agree (decode(encode(k)) = k for every constant the decoder can produce); no encoder reaches a fixed-precision float formatter; json:\"-\" fields are exactly the tabled derived fields filled by Validate; the optional (patch) struct types are derived from Conf/Path skipping exactly the same fields as the returned Global type; omitempty is used only on pointer fields; configurations that contain slices nested below list elements are normalised (nil → empty) before they can be returned, because the decoder rejects null; validation is idempotent over the constants it fills in: for every constant a validation function (reachable from Conf.Validate) stores into a json-visible field, running the same function again on that value - under everything known about the input when the store ran - reaches no error return decided by that value, so the validated document the API returns is accepted when it is written back. Does not decide equality over value domains (time.Duration.String/ParseDuration, net.ParseCIDR, bytefmt.ToBytes), nor the deliberate redaction of credentials in API responses.",
 		Note:      "trusted: encoding/json default encodings, time.Duration.String ↔ time.ParseDuration, net.IPNet.String ↔ net.ParseCIDR; reflect-based derivation of optional types is read from the constants its closures compare the json tag with"})
 	addMutants(
 		Mutant{"C08", "decoder-removed", "internal/conf/rtsp_auth_method.go",
@@ -68,7 +68,7 @@ func runC08(c *Ctx) {
 		return
 	}
 	c.Explain = "E3 walk of the json-visible type graph of conf.Conf and conf.Path; rules: pair (MarshalJSON ⇔ UnmarshalJSON), wire_type (value given to json.Marshal / quoted by hand vs. variable given to jsonwrapper.Unmarshal), default_decoder (decoder-only types decode into their own underlying type), enum_tables (E7: constant tables extracted from the switch statements of encoder and decoder agree: every encoded constant decodes to itself, every decodable constant not named by the encoder is the one the encoder's default string decodes to), " +
-		"lossy_format (E2: static call graph from every MarshalJSON/marshalInternal of package conf, outside the standard library, reaches no strconv.FormatFloat/AppendFloat with fixed precision and no fmt %.Nf verb), hidden_fields (json:\"-\" fields = tabled derived fields, each stored by Validate/validate), optional_derivation (the tag constants skipped by the reflect.StructOf closures of global.go, optional_global.go, optional_path.go), omitempty_pointer_only, nil_slices (callers of (*Conf).Validate that install configurations whose type graph nests a slice below a list element call the nil-slice normaliser first, as conf.Load does). " +
+		"lossy_format (E2: static call graph from every MarshalJSON/marshalInternal of package conf, outside the standard library, reaches no strconv.FormatFloat/AppendFloat with fixed precision and no fmt %.Nf verb), hidden_fields (json:\"-\" fields = tabled derived fields, each stored by Validate/validate), optional_derivation (the tag constants skipped by the reflect.StructOf closures of global.go, optional_global.go, optional_path.go), omitempty_pointer_only, nil_slices (callers of (*Conf).Validate that install configurations whose type graph nests a slice below a list element call the nil-slice normaliser first, as conf.Load does), validate_idempotent (constant stores recv.F = k in the validation functions vs. the tests of recv.F against constants in the same function: second-run walk with F = k, the literals dominating the store and one scenario per value of each switch discriminant; only error returns reached through tests with known outcome count). " +
 		"NOT decided: value-level equality (Duration text, CIDR text, byte-size text parsing), credential redaction in API responses (deliberate), yaml↔json equivalence."
 	c.Assume = []string{
 		"encoding/json encodes a nil slice as null and named string/struct types by their underlying kind",
@@ -232,6 +232,8 @@ func runC08(c *Ctx) {
 	c08Hidden(c, p, confT, pathT)
 	c08Derivation(c, p)
 	c08NilSlices(c, p, confT, pathT)
+	// what validation fills in survives validation (prop_r4_c08.go)
+	c08ValidateIdempotentR4(c, p)
 }
 
 // c08EncoderWire: the type of the value a MarshalJSON hands to json.Marshal on
